@@ -115,7 +115,7 @@ def build_layer(d, roots):
     t = d['t']
     if t == 'source':
         ids = tuple(d['ids'])
-        items = [('ids', meta(Function(_const_ids(ids))))]
+        items = [('ids', meta(Function(_const_ids_list(ids) if d.get('ids_as_list') else _const_ids(ids))))]
         for name, s in d.get('meta', {}).items():
             items.append((name, meta(Function(sym(s)))))
         for name, s in d['fields'].items():
@@ -214,6 +214,26 @@ def _const_ids(ids):
         f.__name__ = f.__qualname__ = 'ids_' + '_'.join(ids)
         _IDS_FUNCS[ids] = f
     return _IDS_FUNCS[ids]
+
+
+_IDS_LISTS = {}
+
+
+def _const_ids_list(ids):
+    """ids as ONE list object that outlives the calls (a dataset may well keep its ids in a list)"""
+    if PICKLABLE[0]:
+        import pickpool
+        if ids not in _IDS_LISTS:
+            _IDS_LISTS[ids] = (pickpool.ConstIdsList(ids), None)
+        return _IDS_LISTS[ids][0]
+    if ids not in _IDS_LISTS:
+        the_list = list(ids)
+
+        def f():
+            return the_list
+        f.__name__ = f.__qualname__ = 'idslist_' + '_'.join(ids)
+        _IDS_LISTS[ids] = (f, the_list)
+    return _IDS_LISTS[ids][0]
 
 
 _PREDS = {}
